@@ -53,6 +53,10 @@ var realCommon = []string{"all of google/pprof's packages profile and internal/{
 var stubCommon = []string{"kernel filesystem (simos in-memory disk with fault and crash model)", "goroutine scheduler (simrt baton scheduler driven by the choice tape)", "sync primitives' blocking behaviour (simsync model + real primitive)", "clock (simtime)", "external programs dot/addr2line/nm/objdump/browsers (simexec scripts)", "terminal, flags, output writer (plug-in seams)", "HTTP listener (handlers called directly through the HTTPServer seam)", "remote servers (http.RoundTripper seam)"}
 
 var specs = map[string]*checkSpec{
+	"C20": {Prop: "C20", Engine: "c20", Pkg: "internal/driver", Race: true, Level: "exploration", QuickS: 45, ThorS: 1200,
+		Rule:     "built with -race; the scheduler's baton hand-offs are invisible to the race detector (runtime.RaceDisable around the hand-off, //go:norace scheduler and simulated kernel), so the detector sees exactly the synchronisation pprof performs itself while the interleaving is dictated by the tape (random walk at sync, I/O and function-entry points, or PCT). Scenarios: 2-4 tasks Write/WriteUncompressed/Copy one shared profile (bytes must equal the sequential serialization); option get/set by writers and readers (no torn config, register linearizability by exact search); 2-6 tasks creating temp files with equal prefixes against a pre-populated directory (distinct names, nothing clobbered, registry cleaned exactly once); 2-4 concurrent web clients incl. /download and first use of the HTML templates (responses equal the solo responses on a fresh session); concurrent multi-source fetch with faults (C16 oracles). Any race report, deadlock or step-limit hang is a violation. A case is distinct by (scenario, operations, context-switch signature) and non-trivial if at least one context switch happened between the concurrent operations",
+		StateDef: "distinct sets of temp-file names handed out (temp-file scenario)",
+		Assume:   []string{"the race detector reports a racy pair of accesses only if both occur in the run (they need not collide); torn multi-word reads between two instructions of one statement are left to it", "the symbolizer tool access scenario (binutils, addr2line pipes) runs in its own engine when registered; it is not part of this evidence file unless listed in the rule"}},
 	"C16": {Prop: "C16", Engine: "c16", Pkg: "internal/driver", Level: "exploration", QuickS: 45, ThorS: 1200,
 		Rule:     "cases are seeded source lists (1..6, 127..130, 255..300 sources, 0..3 bases, kinds file/URL/Fetcher) with a seeded per-source fault plan (missing, HTTP 404/500, garbage, torn body or file, invalid profile, Fetcher error, stall until the client timeout in simulated time, disk read error) run through the real driver.PProf with every fetch goroutine a simulated task under run-to-block, random-walk (sync, I/O and function-entry preemption) or PCT scheduling and seeded simulated latencies; plus a block that enumerates, for n<=3 (quick) / n<=4 (thorough) remote sources, every failing subset x every completion order. Oracles: reference model built from the generator's description of the good sources, byte equality with the sequential zero-latency schedule, byte equality with the run listing only the good sources, per-source error accounting, exit status, no deadlock/hang. A sampled case is distinct by (source list with kinds, faults and latencies, context-switch signature) and non-trivial if it has >=2 sources or bases and at least one context switch happened",
 		StateDef: "distinct (n, failing-subset signature, completion-order signature) triples",
@@ -281,7 +285,15 @@ func readRecords(path string) ([]record, error) {
 func replayOnce(bin, file string, gomaxprocs int) (*record, error) {
 	outp := file + fmt.Sprintf(".out.%d.%d", os.Getpid(), time.Now().UnixNano())
 	defer os.Remove(outp)
-	env := []string{"VERIF_ENGINE=" + engineOfReplay(file), "VERIF_REPLAY=" + file, "VERIF_OUT=" + outp}
+	env := []string{"VERIF_ENGINE=" + engineOfReplay(file), "VERIF_REPLAY=" + file, "VERIF_OUT=" + outp,
+		"GORACE=halt_on_error=0 log_path=" + outp + ".race", "VERIF_RACELOG=" + outp + ".race"}
+	defer func() {
+		if ms, _ := filepath.Glob(outp + ".race*"); ms != nil {
+			for _, f := range ms {
+				os.Remove(f)
+			}
+		}
+	}()
 	if gomaxprocs > 0 {
 		env = append(env, "GOMAXPROCS="+strconv.Itoa(gomaxprocs))
 	}
@@ -371,7 +383,8 @@ func check(prop, tier string) int {
 			env := []string{"VERIF_ENGINE=" + spec.Engine, fmt.Sprintf("VERIF_SEEDS=%d:%d", first, chunk), "VERIF_OUT=" + outp,
 				"VERIF_TIER=" + tier, fmt.Sprintf("VERIF_DEADLINE=%d", deadline.Unix()), "GOMAXPROCS=2"}
 			if spec.Race {
-				env = append(env, "GORACE=halt_on_error=0 log_path="+filepath.Join(work, fmt.Sprintf("race.w%d", w)))
+				rl := filepath.Join(work, fmt.Sprintf("race.w%d", w))
+				env = append(env, "GORACE=halt_on_error=0 log_path="+rl, "VERIF_RACELOG="+rl)
 			}
 			_, errb, err := runWorker(bin, env, time.Duration(budget)*time.Second+15*time.Minute)
 			recs, rerr := readRecords(outp)
@@ -501,7 +514,7 @@ func check(prop, tier string) int {
 				defer func() { <-sem }()
 				outp := filepath.Join(work, fmt.Sprintf("det%d.jsonl", i))
 				env := []string{"VERIF_ENGINE=" + spec.Engine, fmt.Sprintf("VERIF_SEEDS=%d:1", rec.Seed), "VERIF_OUT=" + outp, "VERIF_TIER=" + tier,
-					fmt.Sprintf("GOMAXPROCS=%d", []int{1, 4, 16}[i%3])}
+					fmt.Sprintf("GOMAXPROCS=%d", []int{1, 4, 16}[i%3]), "GORACE=halt_on_error=0 log_path=" + outp + ".race", "VERIF_RACELOG=" + outp + ".race"}
 				_, errb, err := runWorker(bin, env, 10*time.Minute)
 				recs, _ := readRecords(outp)
 				mu.Lock()
